@@ -9,6 +9,16 @@ TRUST = ("Trusted base: CPython, Hypothesis, the reference models under lsfverif
          "'held' means held on the cases counted in the evidence file.")
 
 CHECKS = {
+    "C05": dict(
+        category="exploration",
+        technique="exhaustive enumeration of scheduler interleavings (stateless DFS over delivery/reply/timer choices) for small fan-outs plus Hypothesis-sampled schedules and worker delays for larger/nested ones; positional, join-order, exactly-once and in-flight oracles on the broker log",
+        text=("Structured Map / Parallel / nested machines whose branch Tasks carry their index are run under every interleaving of branch events, replies and timers (all Map sizes 0..2 x MaxConcurrency 0..n+1, "
+              "Parallel of 2 with one or two Tasks per branch, Parallel containing a Map; larger and nested cases in the thorough tier, each enumeration bounded and its completeness reported), and under sampled "
+              "schedules with per-item reply delays for sizes up to 4/8. For every schedule: output[i] is branch/item i's reference output, the state after the join is requested only after the last branch reply "
+              "reached the engine and exactly once, each item is requested exactly once, and iterations in flight never exceed MaxConcurrency."),
+        design_ref="DESIGN.md section 5 C05",
+        note="All branches succeed here; in the exhaustive part time passes only when nothing else is enabled. " + TRUST,
+    ),
     "C09": dict(
         category="exploration",
         technique="property-based testing over generated machines x schedules: history well-formedness monitor after every scheduler step, GetExecutionHistory in both orders, StateEntered/StateExited differential against the reference interpreter's trace",
